@@ -148,6 +148,28 @@ theorem erase_if_spec (l : List α) (p : α → Bool) : nmEraseIf l p = L0.erase
     simp only [List.filter_cons]
     cases h : p a <;> simp [h] <;> (have := List.length_filter_le (fun x => !p x) l; omega)
 
+/-- the result does not depend on the inline capacities: the overloads for operands of EQUAL inline capacity compute the
+    same functions as the ones for operands of different inline capacity (so every theorem above holds for both) -/
+theorem same_capacity_overloads_agree [BEq α] (lt : α → α → Bool) (l r : List α) :
+    opEqSame l r = opEq l r ∧ opNeSame l r = opNe l r ∧ opLtSame lt l r = opLt lt l r ∧ opGeSame lt l r = opGe lt l r ∧
+    opGtSame lt l r = opGt lt l r ∧ opLeSame lt l r = opLe lt l r := by
+  have hlt : ∀ a b, opLtSame lt a b = opLt lt a b := fun a b => by
+    rw [lt_spec]; unfold opLtSame; exact stdLexLt_eq_lexLt lt a b
+  have heq : opEqSame l r = opEq l r := by
+    rw [eq_spec]; unfold opEqSame
+    by_cases h : l.length = r.length
+    · simp only [h, decide_true, Bool.true_and]; exact stdEqual_eq_listEq l r h
+    · have : listEq l r = false := by
+        cases hle : listEq l r with
+        | false => rfl
+        | true => exact absurd (listEq_length l r hle) h
+      simp [h, this]
+  refine ⟨heq, ?_, hlt l r, ?_, ?_, ?_⟩
+  · unfold opNeSame opNe; rw [heq]
+  · unfold opGeSame opGe; rw [hlt]
+  · unfold opGtSame opGt; rw [hlt]
+  · unfold opLeSame opLe opGeSame opGe; rw [hlt]
+
 /-- non-vacuity / sanity on concrete contents (elements Nat, `<` and `==` the usual ones) -/
 example : opEq [1, 2, 3] [1, 2, 3] = true ∧ opEq [1, 2] [1, 2, 3] = false ∧ opNe [1, 2] [1, 3] = true := by decide
 example : opLt Nat.blt [1, 2] [1, 2, 0] = true ∧ opLe Nat.blt [1, 2] [1, 2] = true ∧ opGt Nat.blt [2] [1, 9] = true ∧
